@@ -883,3 +883,191 @@ def _sum_pairs_first_operand_major(ctx: Ctx, fq: str = "cirkit.symbolic.function
     if not out:
         out.append(unres("R14q", f.qualname, "sum-pairs:first-operand-major", "no itertools.product over two layers' inputs in multiply (another formulation): no verdict", f.loc))
     return out
+
+
+# ------------------------------------------------------------------------------------------ R14r
+def _int_eval(e: ast.AST, env: dict[str, int]) -> int | None:
+    """closed-form integer expression over named parameters (+, -, *, //, **, min, max) at one valuation"""
+    if isinstance(e, ast.Constant) and isinstance(e.value, int) and not isinstance(e.value, bool):
+        return e.value
+    if isinstance(e, ast.Name):
+        return env.get(e.id)
+    if isinstance(e, ast.UnaryOp) and isinstance(e.op, ast.USub):
+        v = _int_eval(e.operand, env)
+        return None if v is None else -v
+    if isinstance(e, ast.BinOp):
+        l, r = _int_eval(e.left, env), _int_eval(e.right, env)
+        if l is None or r is None:
+            return None
+        if isinstance(e.op, ast.Add):
+            return l + r
+        if isinstance(e.op, ast.Sub):
+            return l - r
+        if isinstance(e.op, ast.Mult):
+            return l * r
+        if isinstance(e.op, ast.FloorDiv):
+            return None if r == 0 else l // r
+        if isinstance(e.op, ast.Pow) and 0 <= r <= 4:
+            return l**r
+        return None
+    if isinstance(e, ast.Call) and isinstance(e.func, ast.Name) and e.func.id in ("min", "max") and e.args and not e.keywords:
+        vs = [_int_eval(a, env) for a in e.args]
+        if any(v is None for v in vs):
+            return None
+        return min(vs) if e.func.id == "min" else max(vs)  # type: ignore[type-var]
+    if isinstance(e, ast.Call) and isinstance(e.func, ast.Name) and e.func.id == "int" and len(e.args) == 1:
+        return _int_eval(e.args[0], env)
+    return None
+
+
+def count_table_covers_bins(ctx: Ctx, fq: str = "cirkit.templates.region_graph.algorithms.chow_liu.ChowLiuTree", callee: str = "_categorical_mutual_info", table_kw: str = "num_categories", data_param: str = "data") -> list[Ob]:
+    """R14r -- the joint-count table is as wide as the (re-binned) categories it is indexed with.
+
+    ``_categorical_mutual_info`` scatters into a table of side ``num_categories`` at index
+    ``a * num_categories + b``; every category index it is handed must be below that side.  The
+    caller's data holds categories 0..K-1 (K its own ``num_categories``), optionally re-binned by a
+    floor division.  A path-sensitive walk of the caller (forking at every ``if``, nothing executed)
+    tracks the upper bound of the data entries and the expression passed as the table side; the
+    entailment `bound < side` is proved by the lemma ``x // d <= x`` (d >= 1) when the side is K
+    itself, and otherwise refuted by a bounded search for a counter-model of the two closed-form
+    integer expressions (1 <= B <= K <= 48), e.g. K = 10, B = 4: divisor 2, largest bin 4, side 4."""
+    f = ctx.repo.func(fq)
+    pnames = [p.name for p in f.params]
+    if data_param not in pnames or table_kw not in pnames:
+        raise AnalysisError(f"R14r: {fq} no longer has parameters {data_param} / {table_kw}")
+    out: list[Ob] = []
+    K = ast.Name(id=table_kw, ctx=ast.Load())
+    init_ub: ast.AST = ast.BinOp(left=K, op=ast.Sub(), right=ast.Constant(1))
+    calls_seen = 0
+
+    class Unknown(Exception):
+        pass
+
+    def subst(e: ast.AST, side: ast.AST) -> ast.AST:
+        """expressions are over the *parameters*: a local re-binding of the table parameter is inlined"""
+
+        class S(ast.NodeTransformer):
+            def visit_Name(self, n: ast.Name) -> ast.AST:
+                return side if n.id == table_kw else n
+
+        import copy
+
+        return S().visit(copy.deepcopy(e))
+
+    def is_data(e: ast.AST) -> bool:
+        while isinstance(e, ast.Call) and isinstance(e.func, ast.Attribute) and e.func.attr in ("long", "int", "to", "contiguous", "clone", "cpu"):
+            e = e.func.value
+        return isinstance(e, ast.Name) and e.id == data_param
+
+    def walk(stmts: list[ast.stmt], ub: ast.AST | None, side: ast.AST | None, none_side: bool | None, conds: tuple[str, ...]) -> None:
+        """ub: bound of the data entries (None: unknown); side: current value of the table parameter as
+        an expression over the parameters (None: unknown); none_side: the parameter is None on this path"""
+        nonlocal calls_seen
+        for i, st in enumerate(stmts):
+            for c in [n for n in ast.walk(st) if isinstance(n, ast.Call) and (dotted(n.func) or "").split(".")[-1] == callee] if not isinstance(st, ast.If) else []:
+                calls_seen += 1
+                loc = f"{f.module.relpath}:{c.lineno}"
+                inst = "table-side>=bins:" + ("binned" if ub is not None and any(isinstance(x, ast.BinOp) and isinstance(x.op, ast.FloorDiv) for x in ast.walk(ub)) else "plain")
+                kw = {k.arg: k.value for k in c.keywords}
+                arg0 = c.args[0] if c.args else kw.get(data_param)
+                s_e = kw.get(table_kw)
+                if arg0 is None or not is_data(arg0):
+                    out.append(unres("R14r", f.qualname, inst, "the index tensor handed to the callee is not the (cast) data: no verdict", loc))
+                    continue
+                if s_e is None or (isinstance(s_e, ast.Constant) and s_e.value is None) or (isinstance(s_e, ast.Name) and s_e.id == table_kw and none_side):
+                    out.append(ok("R14r", f.qualname, inst, "no table side is passed: the callee sizes the table from the data itself", loc))
+                    continue
+                if ub is None or (isinstance(s_e, ast.Name) and s_e.id == table_kw and side is None):
+                    out.append(unres("R14r", f.qualname, inst, "the bound of the data or the table side was not derived on this path: no verdict", loc))
+                    continue
+                s_full = subst(s_e, side if side is not None else K)
+                # proof: side is K and the bound is K - 1 divided (any number of times) by divisors >= 1
+                e = ub
+                divided = False
+                while isinstance(e, ast.BinOp) and isinstance(e.op, ast.FloorDiv):
+                    e = e.left
+                    divided = True
+                if unparse(s_full) == table_kw and unparse(e) == unparse(init_ub):
+                    out.append(ok("R14r", f.qualname, inst, f"entries <= {unparse(ub)} <= {table_kw} - 1 (x // d <= x for d >= 1): the table of side {table_kw} covers them", loc))
+                    continue
+                names = sorted({n.id for x in (ub, s_full) for n in ast.walk(x) if isinstance(n, ast.Name)})
+                others = [n for n in names if n != table_kw]
+                if len(others) > 1:
+                    out.append(unres("R14r", f.qualname, inst, f"bound {unparse(ub)} and side {unparse(s_full)} depend on {names}: no verdict", loc))
+                    continue
+                witness = None
+                evaluated = 0
+                for k in range(1, 49):
+                    for b in range(1, k + 1) if others else [None]:
+                        env = {table_kw: k}
+                        if others:
+                            env[others[0]] = b  # type: ignore[assignment]
+                        u, s = _int_eval(ub, env), _int_eval(s_full, env)
+                        if u is None or s is None:
+                            continue
+                        evaluated += 1
+                        if u >= s and witness is None:
+                            witness = (dict(env), u, s)
+                if witness is not None:
+                    out.append(viol("R14r", f.qualname, inst, f"the data entries reach {unparse(ub)} while the count table has side {unparse(s_full)}: for {witness[0]} the largest index is {witness[1]} >= {witness[2]}, so the flattened joint index leaves the table (scatter raises, or counts are aliased into another cell)", loc))
+                elif evaluated:
+                    out.append(ok("R14r", f.qualname, inst, f"no valuation with 1 <= B <= K <= 48 has {unparse(ub)} >= {unparse(s_full)} ({evaluated} valuations of the two closed-form expressions; a bounded refutation search, not a proof)", loc))
+                else:
+                    out.append(unres("R14r", f.qualname, inst, f"bound {unparse(ub)} / side {unparse(s_full)} are not closed-form integer expressions: no verdict", loc))
+            if isinstance(st, (ast.Raise, ast.Return)):
+                return
+            if isinstance(st, ast.If):
+                t = st.test
+                # `<table param> is None` / `is not None`
+                tn: bool | None = None
+                if isinstance(t, ast.Compare) and len(t.ops) == 1 and isinstance(t.left, ast.Name) and t.left.id == table_kw and isinstance(t.comparators[0], ast.Constant) and t.comparators[0].value is None:
+                    tn = isinstance(t.ops[0], ast.Is)
+                lab = unparse(t)[:30]
+                for branch, holds in ((st.body, True), (st.orelse, False)):
+                    ns = none_side
+                    if tn is not None:
+                        is_none_here = tn if holds else not tn
+                        if none_side is not None and none_side != is_none_here:
+                            continue  # infeasible
+                        ns = is_none_here
+                    walk(list(branch) + stmts[i + 1 :], ub, side, ns, conds + ((lab if holds else "not " + lab),))
+                return
+            if isinstance(st, (ast.For, ast.While, ast.Try, ast.With)):
+                if any(isinstance(n, ast.Name) and n.id in (data_param, table_kw) and isinstance(n.ctx, ast.Store) for n in ast.walk(st)):
+                    ub, side = None, None
+                continue
+            if isinstance(st, ast.Assign) and len(st.targets) == 1 and isinstance(st.targets[0], ast.Name):
+                tgt, v = st.targets[0].id, st.value
+                if tgt == data_param:
+                    d: ast.AST | None = None
+                    if isinstance(v, ast.Call) and (dotted(v.func) or "").split(".")[-1] in ("div", "floor_divide", "divide") and v.args and is_data(v.args[0]) and len(v.args) >= 2:
+                        mode = next((k.value for k in v.keywords if k.arg == "rounding_mode"), None)
+                        if (dotted(v.func) or "").endswith("floor_divide") or (isinstance(mode, ast.Constant) and mode.value == "floor"):
+                            d = v.args[1]
+                    elif isinstance(v, ast.BinOp) and isinstance(v.op, ast.FloorDiv) and is_data(v.left):
+                        d = v.right
+                    if d is not None and ub is not None:
+                        ub = ast.BinOp(left=ub, op=ast.FloorDiv(), right=subst(d, side if side is not None else K))
+                    elif is_data(v):
+                        pass
+                    elif isinstance(v, ast.Call) and (dotted(v.func) or "").split(".")[-1] in ("clamp", "clip", "clamp_max") and is_data(v.args[0] if v.args else v.func.value if isinstance(v.func, ast.Attribute) else v):
+                        mx = next((k.value for k in v.keywords if k.arg == "max"), None)
+                        ub = ast.Call(func=ast.Name(id="min", ctx=ast.Load()), args=[ub, subst(mx, side if side is not None else K)], keywords=[]) if (mx is not None and ub is not None) else ub
+                    else:
+                        ub = None
+                elif tgt == table_kw:
+                    side = subst(v, side if side is not None else K) if _int_eval(subst(v, side if side is not None else K), {n.id: 2 for n in ast.walk(v) if isinstance(n, ast.Name)} | {table_kw: 2}) is not None else None
+                    none_side = False if side is not None else none_side
+
+    walk(list(f.node.body), init_ub, K, None, ())
+    if calls_seen == 0:
+        raise AnalysisError(f"R14r: {fq} no longer calls {callee} (anchor vanished)")
+    # de-duplicate identical path verdicts
+    seen: set[tuple[str, str, str]] = set()
+    res = []
+    for o in out:
+        k = (o.instance, o.status, o.msg)
+        if k not in seen:
+            seen.add(k)
+            res.append(o)
+    return res
